@@ -57,6 +57,7 @@ Step ==
             (IF Ev.panic > 0 THEN {"C16: " \o ToString(Ev.panic) \o " of " \o ToString(Ev.total) \o " " \o Ev.class \o " mutants made the parser panic"} ELSE {}) \cup
             (IF Ev.err + Ev.ok + Ev.panic # Ev.total THEN {"harness: tally does not add up"} ELSE {}))
        [] Ev.ev = "panic" -> o' = o /\ Out(Ev.id, {"C16: parser panicked on a " \o Ev.class \o " mutant at byte " \o ToString(Ev.pos) \o ": " \o Ev.msg})
+       [] Ev.ev = "wrong" -> o' = o /\ Out(Ev.id, {"NOTE: the parser accepts a valid stream written by FlacWriter.tla but decodes different audio: " \o Ev.msg})
        [] Ev.ev = "ok" -> o' = o /\ Out(Ev.id, JudgeOk(Ev))
 Init == l = 1 /\ o = 0
 Spec == Init /\ [][Step]_<<l, o>>
